@@ -29,6 +29,17 @@ def convert(law, kind, tmpdir, tag, inplace=False):
         return pickle.loads(pickle.dumps(law, 2))
     if kind == 'table':
         return Extinction.from_table(law.to_table())
+    if kind == 'file_units':
+        # a text file in nm and m^2/kg, read with the reader's wav_unit / chi_unit arguments
+        p = os.path.join(tmpdir, 'lawu_%s.txt' % tag)
+        wv = law.wav.to(u.nm).value
+        cv = law.chi.to(u.m ** 2 / u.kg).value
+        with open(p, 'w') as f:
+            for a, b in zip(wv, cv):
+                f.write('%r %r\n' % (float(a), float(b)))
+        law2 = Extinction.from_file(p, wav_unit=u.nm, chi_unit=u.m ** 2 / u.kg)
+        os.remove(p)
+        return law2
     if kind in ('file', 'file_cols'):
         p = os.path.join(tmpdir, 'law_%s.txt' % tag)
         wv = law.wav.to(u.micron).value
@@ -95,7 +106,7 @@ def replay_chunk(behs, tmpdir, seed):
             col.violation('C14:raised:%s' % type(e).__name__, 'table w=%r c=%r after %r: %r' % (b['w'], b['c'], b['convs'], e), b)
             continue
         col.replayed += 1
-        unitconv = any(k.startswith('units') for k in b['convs'])
+        unitconv = any(k.startswith('units') or k == 'file_units' for k in b['convs'])
         for x, g, g1 in zip(qs, got, got1):
             want = float(frac(b['q'][str(x)]))
             edge = x in (b['w'][0], b['w'][-1])
@@ -126,7 +137,7 @@ def record(seeds, tmpdir, maxrows):
         law = build(ws, cs)
         for step in range(rng.randint(1, 8)):
             if rng.random() < 0.35:
-                k = rng.choice(['pickle', 'table', 'file', 'file_cols', 'units_nm_si', 'units_cm', 'scale3', 'scale_third'])
+                k = rng.choice(['pickle', 'table', 'file', 'file_cols', 'file_units', 'units_nm_si', 'units_cm', 'scale3', 'scale_third'])
                 ev = {'ev': 'Conv', 'kind': k, 'raised': 0}
                 try:
                     law = convert(law, k, tmpdir, '%d_%d' % (sd, step), inplace=rng.random() < 0.5)
@@ -138,7 +149,7 @@ def record(seeds, tmpdir, maxrows):
                 q = rng.choice(ws) if r < 0.3 else (rng.randint(1, lo) if r < 0.4 else (rng.randint(hi, hi + 50) if r < 0.5 else rng.randint(lo, hi)))
                 style = rng.randint(0, 3)
                 v = float(query(law, [q], style)[0])
-                conv = int(style != 0 or any(e.get('kind', '').startswith('units') for e in tr if e['ev'] == 'Conv'))
+                conv = int(style != 0 or any(e.get('kind', '').startswith('units') or e.get('kind') == 'file_units' for e in tr if e['ev'] == 'Conv'))
                 tr.append({'ev': 'Query', 'q': q, 'av': dec7(v), 'conv': conv})
         out.append(tr)
     return out
@@ -157,7 +168,7 @@ def run(ctx):
     em = res['emitted']
     if not em:
         raise MachineryError('no behaviours emitted')
-    ctx.notes['mc_constants'] = 'tables of 2..5 nodes out of {0.2,0.4,0.55,0.7,1.0,1.5} um (V on a node or between), opacities %s, 13 query wavelengths, all sequences of 2 of 8 representation changes' % ('{1,2,4}' if q else '1..4')
+    ctx.notes['mc_constants'] = 'tables of 2..5 nodes out of {0.2,0.4,0.55,0.7,1.0,1.5} um (V on a node or between), opacities %s, 13 query wavelengths, all sequences of 2 of 9 representation changes' % ('{1,2,4}' if q else '1..4')
     ctx.notes['behaviours_emitted'] = len(em)
     ctx.sample({'behaviour': em[len(em) // 2]})
     tmpdir = ctx.mkdtemp('law')
